@@ -154,9 +154,12 @@ RULE = (
     "agreement is checked before and after the tree is drawn again, or (order bit of the step) against a rendering "
     "made with the canvases of the previous drawing still referenced and then against a drawing with an empty cache "
     "(fit re-verified; a step that un-fits the tree ends the history) and the state-free mouse sweep is repeated on "
-    "the final state.  Deterministic sweep before the campaign: 8 small trees (Pile, Columns, GridFlow, Frame, two "
-    "scrolling ListBoxes, Padding, Overlay over 1- and 2-row Edits; bare and in a LineBox; flow and box root) x "
-    "every setter spelling x 6 values x two calls x the 4 orders; and Padding (flow and box) / Filler / Overlay "
+    "the final state.  Deterministic sweep before the campaign: 10 small trees (Pile, Columns, GridFlow, Frame, two "
+    "scrolling ListBoxes, Padding and Overlay starting from a named and from a ('relative', 30) alignment) over 1- and "
+    "2-row leaves of two families (Edits: never cached; Button / CheckBox / SelectableIcon: the focus chain's canvases "
+    "stay cached); bare and in a LineBox; flow and box root x "
+    "every setter spelling x 6 values x two calls x the 4 orders (Padding / Overlay at the exact need and at need + "
+    "(3, 1), 4416 cases); and Padding (flow and box) / Filler / Overlay "
     "(either axis) over a two-row Edit x relative share 100 / 60 % x every pair of fixed margins x minimum size = "
     "need +0 / +2 x left, center, right, ('relative', 30) x every size from the child's bare need to +6 columns / +4 "
     "rows (3664 cases); and every way of giving a flow child fewer rows than the holder has (Filler 'pack' x 4 "
@@ -910,6 +913,7 @@ def _same(a, b):
 
 
 MAX_AREA = 600
+_CLAUSE3_SEEN: dict = {}  # (tree, mode, size) -> instances of listed findings clause 3 met (nothing unlisted), this process
 NOTE_NEVER = " [never rendered tree]"
 NOTE_RESIZED = " [resized, not drawn since]"
 
@@ -1429,7 +1433,15 @@ class Harness:
         ncols, nrows = canv0.cols(), canv0.rows()
 
         # clause 3: a fresh tree per cell (rectangles of the first drawing = the initial state)
-        if hasattr(root, "move_cursor_to_coords"):
+        # (every call is made on a fresh tree, so what this block finds is a function of the tree and the size alone:
+        # a tree + size is not gone through again for the next history on the same tree + size, the instances of
+        # listed findings it met are taken over)
+        memo = (json.dumps(self.case["tree"], sort_keys=True), self.mode, self.size)
+        mark = len(self.deferred)
+        if self.collect is None and memo in _CLAUSE3_SEEN:
+            self.deferred.extend(_CLAUSE3_SEEN[memo])
+            stat("move:tree-and-size-gone-through-before")
+        elif hasattr(root, "move_cursor_to_coords"):
             twinned = set()
             for pid, p in enumerate(reg.probes):
                 if not p["sel"] or p["bg"]:
@@ -1446,7 +1458,6 @@ class Harness:
                         self.move(c, r, pid, p, rects0[pid], sizes0[pid])
             # ... and every other cell of the rendered area (margins, dividers, borders, rows below a short column,
             # unselectable children, leaves below a Frame / ListBox / Overlay): if the tree says it moved its cursor
-            # there, the cursor it reports is in a leaf drawn on the requested row
             # there, the cursor it reports is in a leaf drawn on the requested row.  Every row; in a row the first and
             # the last column of every maximal run of cells that show the same thing in the first drawing (one leaf,
             # or the same margin / divider / border attribute): the clause is about the row, columns are snapped
@@ -1454,6 +1465,8 @@ class Harness:
                 for c in run_ends(grid0[r]):
                     if (c, r) not in twinned:
                         self.move_elsewhere(c, r)
+            if self.collect is None:
+                _CLAUSE3_SEEN[memo] = tuple(self.deferred[mark:])
 
         # clause 2 "without rendering": the event reaches a tree that was never drawn (nor asked anything) at any
         # size - input that arrives before the first screen update.  What is drawn where is read off the first
@@ -1978,35 +1991,47 @@ def _e(txt, cap="", pos=0):
 
 
 def setter_cases():
-    """every container kind that has a focus / alignment setter, holding Edit leaves of 1 and 2 rows so that the
+    """every container kind that has a focus / alignment setter, holding leaves of 1 and 2 rows so that the
     setter has an effect on the cursor (a ListBox with fewer rows than its items need, so that it scrolls), bare and
     inside a LineBox (non-zero offset) x every spelling of the setter x 6 values x a second call of the same
     setter with another value x both orders of "asked" / "drawn with the kept canvases" after either call; the
-    size alternates between the exact need and need + (3, 1)"""
-    a, b, c, d = _e("ab", pos=1), _e("b", "c\n"), _e("\u4e16c", ">", 2), _e("d")
-    filler = {"k": "filler", "n": b, "h": ["k"], "va": 1, "t": 0, "b": 0}
-    trees = [
-        ("F", {"k": "pile", "c": [{"o": ["k"], "n": a}, {"o": ["k"], "n": b}, {"o": ["w", 1], "n": c}], "f": None}),
-        ("F", {"k": "cols", "c": [{"o": ["w", 1], "box": 0, "n": a}, {"o": ["g", 1], "box": 0, "n": b}, {"o": ["w", 2], "box": 0, "n": c}], "div": 1, "f": None}),
-        ("F", {"k": "grid", "c": [{"n": a}, {"n": b}, {"n": c}, {"n": d}], "cwx": 1, "hs": 1, "vs": 1, "al": 0, "f": None}),
-        ("B", {"k": "frame", "body": filler, "hdr": a, "ftr": c, "fp": "body"}),
-        ("B", {"k": "lb", "c": [{"n": a}, {"n": b}, {"n": c}, {"n": d}], "f": None, "cut": 2}),
-        ("B", {"k": "lb", "c": [{"n": a}, {"n": b}, {"n": c}, {"n": d}], "f": 2, "cut": 3}),
-        ("F", {"k": "pad", "n": b, "w": ["g", 3], "al": 0, "l": 1, "r": 0}),
-        ("B", {"k": "over", "top": b, "h": ["k"], "bg": 0, "al": 1, "va": 1, "w": ["g", 2], "l": 1, "r": 0, "t": 0, "b": 1}),
-    ]
-    for natural, tree in trees:
-        for wrapped in (0, 1):
-            spec = {"k": "line", "n": tree, "title": "", "drop": []} if wrapped else tree
-            for mode in sorted({natural, "B"}):
-                for j in range(N_SPELLINGS[tree["k"]]):
-                    for val in range(6):
-                        for order in range(4):
-                            dc, dr = ((0, 0), (3, 1))[(val + order) % 2]
-                            yield {
-                                "tree": spec, "mode": mode, "dc": dc, "dr": dr, "ev": (val + j) % len(EVENTS),
-                                "ops": [["set", 0, j, val], ["set", 0, j, 3 * val + 1]], "ord": order,
-                            }
+    size alternates between the exact need and need + (3, 1) (Padding / Overlay: both sizes).  Two families of leaves: Edits (their canvases are
+    never cached) and SelectableIcon based ones (Button, CheckBox, SelectableIcon: the canvases of the whole focus
+    chain stay in the canvas cache, so a setter that forgets to invalidate shows in the next drawing); Padding and
+    Overlay start from a named alignment and from ('relative', 30) (the setter values then run through named ->
+    named, named -> relative, relative -> named and relative -> another relative amount)."""
+    edits = (_e("ab", pos=1), _e("b", "c\n"), _e("\u4e16c", ">", 2), _e("d"))
+    icons = (
+        {"k": "btn", "txt": "ab", "st": 0}, {"k": "chk", "txt": "b b b", "st": 1},
+        {"k": "icon", "txt": "\u4e16c", "pos": 1}, {"k": "btn", "txt": "d", "st": 0},
+    )
+    for a, b, c, d in (edits, icons):
+        filler = {"k": "filler", "n": b, "h": ["k"], "va": 1, "t": 0, "b": 0}
+        trees = [
+            ("F", {"k": "pile", "c": [{"o": ["k"], "n": a}, {"o": ["k"], "n": b}, {"o": ["w", 1], "n": c}], "f": None}),
+            ("F", {"k": "cols", "c": [{"o": ["w", 1], "box": 0, "n": a}, {"o": ["g", 1], "box": 0, "n": b}, {"o": ["w", 2], "box": 0, "n": c}], "div": 1, "f": None}),
+            ("F", {"k": "grid", "c": [{"n": a}, {"n": b}, {"n": c}, {"n": d}], "cwx": 1, "hs": 1, "vs": 1, "al": 0, "f": None}),
+            ("B", {"k": "frame", "body": filler, "hdr": a, "ftr": c, "fp": "body"}),
+            ("B", {"k": "lb", "c": [{"n": a}, {"n": b}, {"n": c}, {"n": d}], "f": None, "cut": 2}),
+            ("B", {"k": "lb", "c": [{"n": a}, {"n": b}, {"n": c}, {"n": d}], "f": 2, "cut": 3}),
+        ]
+        for al in (0, ["r", 30]):
+            trees.append(("F", {"k": "pad", "n": b, "w": ["g", 3], "al": al, "l": 1, "r": 0}))
+            trees.append(("B", {"k": "over", "top": b, "h": ["k"], "bg": 0, "al": al if al else 1, "va": al if al else 1, "w": ["g", 2], "l": 1, "r": 0, "t": 0, "b": 1}))
+        for natural, tree in trees:
+            for wrapped in (0, 1):
+                spec = {"k": "line", "n": tree, "title": "", "drop": []} if wrapped else tree
+                for mode in sorted({natural, "B"}):
+                    for j in range(N_SPELLINGS[tree["k"]]):
+                        for val in range(6):
+                            for order in range(4):
+                                # an alignment shows only where there is room to share out: both sizes
+                                sizes = ((0, 0), (3, 1)) if tree["k"] in ("pad", "over") else (((0, 0), (3, 1))[(val + order) % 2],)
+                                for dc, dr in sizes:
+                                    yield {
+                                        "tree": spec, "mode": mode, "dc": dc, "dr": dr, "ev": (val + j) % len(EVENTS),
+                                        "ops": [["set", 0, j, val], ["set", 0, j, 3 * val + 1]], "ord": order,
+                                    }
 
 
 def min_size_cases():
